@@ -135,3 +135,162 @@ Print Assumptions C03_run_meets_spec.
 Theorem C03_doubles_equal_is_the_source : forall d1 d2 t, leaf_doubles_equal d1 d2 t = b2z (doubles_equal d1 d2 t).
 Proof. exact C03_LeafTie.C03_doubles_equal_is_the_source. Qed.
 Print Assumptions C03_doubles_equal_is_the_source.
+
+(* --------------------------------------------------------------------------------------------------------------
+   The check functions of the model ARE the source: the assert entry points of UtestShell as tools/cxx2gal.py regenerates them from Utest.cpp on every run (gen/Gen_LoopC03.v; countCheck() is the ghost event ACount, failWith(XFailure(this, file, line, ...)) the ghost event AFail "XFailure" file line after which the function is left; StrCmp / StrNCmp / MemCmp are the translated, proved functions of gen/Gen_LoopC13.v) produce exactly the events of the model's verdict: ONE count, and ONE failure of the named class carrying the file and line passed in exactly when the model's predicate is false (events_of); memory unchanged. (assertDoublesEqual: its predicate doubles_equal is tied in C03_leaf_functions_are_the_source)
+   -------------------------------------------------------------------------------------------------------------- *)
+From Coq Require Import String. From CppUVerif Require Import lib.CSem lib.CMem lib.CMemFacts lib.CEmit gen.Gen_LoopC13 gen.Gen_LoopC03 C13_SrcSpec C03_SrcTie. Import CppUVerif.lib.CMem.
+Local Open Scope Z_scope.
+Theorem C03_src_assertTrue_tie :
+  forall (fuel : nat) (m : memory) (evs : list aev) (condition : Z)
+  (checkString conditionString text file : ptr) (line : Z),
+  src_assertTrue fuel m evs condition checkString conditionString text file line =
+  FOk (tt, m, evs ++ events_of "CheckFailure" file line (assertTrue (z2b condition))).
+Proof. exact src_assertTrue_tie. Qed.
+Print Assumptions C03_src_assertTrue_tie.
+
+Theorem C03_src_fail_tie :
+  forall (fuel : nat) (m : memory) (evs : list aev) (text file : ptr) (line : Z),
+  src_fail fuel m evs text file line = FOk (tt, m, evs ++ events_of "FailFailure" file line shell_fail).
+Proof. exact src_fail_tie. Qed.
+Print Assumptions C03_src_fail_tie.
+
+Theorem C03_src_assertLongsEqual_tie :
+  forall (fuel : nat) (m : memory) (evs : list aev) (e a : Z) (text file : ptr) (line : Z),
+  src_assertLongsEqual fuel m evs e a text file line =
+  FOk (tt, m, evs ++ events_of "LongsEqualFailure" file line (assertLongsEqual e a)).
+Proof. exact src_assertLongsEqual_tie. Qed.
+Print Assumptions C03_src_assertLongsEqual_tie.
+
+Theorem C03_src_assertUnsignedLongsEqual_tie :
+  forall (fuel : nat) (m : memory) (evs : list aev) (e a : Z) (text file : ptr) (line : Z),
+  src_assertUnsignedLongsEqual fuel m evs e a text file line =
+  FOk (tt, m, evs ++ events_of "UnsignedLongsEqualFailure" file line (assertUnsignedLongsEqual e a)).
+Proof. exact src_assertUnsignedLongsEqual_tie. Qed.
+Print Assumptions C03_src_assertUnsignedLongsEqual_tie.
+
+Theorem C03_src_assertLongLongsEqual_tie :
+  forall (fuel : nat) (m : memory) (evs : list aev) (e a : Z) (text file : ptr) (line : Z),
+  src_assertLongLongsEqual fuel m evs e a text file line =
+  FOk (tt, m, evs ++ events_of "LongLongsEqualFailure" file line (assertLongLongsEqual e a)).
+Proof. exact src_assertLongLongsEqual_tie. Qed.
+Print Assumptions C03_src_assertLongLongsEqual_tie.
+
+Theorem C03_src_assertUnsignedLongLongsEqual_tie :
+  forall (fuel : nat) (m : memory) (evs : list aev) (e a : Z) (text file : ptr) (line : Z),
+  src_assertUnsignedLongLongsEqual fuel m evs e a text file line =
+  FOk (tt, m, evs ++ events_of "UnsignedLongLongsEqualFailure" file line (assertUnsignedLongLongsEqual e a)).
+Proof. exact src_assertUnsignedLongLongsEqual_tie. Qed.
+Print Assumptions C03_src_assertUnsignedLongLongsEqual_tie.
+
+Theorem C03_src_assertSignedBytesEqual_tie :
+  forall (fuel : nat) (m : memory) (evs : list aev) (e a : Z) (text file : ptr) (line : Z),
+  src_assertSignedBytesEqual fuel m evs e a text file line =
+  FOk (tt, m, evs ++ events_of "SignedBytesEqualFailure" file line (assertSignedBytesEqual e a)).
+Proof. exact src_assertSignedBytesEqual_tie. Qed.
+Print Assumptions C03_src_assertSignedBytesEqual_tie.
+
+Theorem C03_src_assertBitsEqual_tie :
+  forall (fuel : nat) (m : memory) (evs : list aev) (e a mask byteCount : Z) (text file : ptr) (line : Z),
+  src_assertBitsEqual fuel m evs e a mask byteCount text file line =
+  FOk (tt, m, evs ++ events_of "BitsEqualFailure" file line (assertBitsEqual e a mask byteCount)).
+Proof. exact src_assertBitsEqual_tie. Qed.
+Print Assumptions C03_src_assertBitsEqual_tie.
+
+Theorem C03_src_assertEquals_tie :
+  forall (fuel : nat) (m : memory) (evs : list aev) (failed : Z) (expected actual text file : ptr) (line : Z),
+  src_assertEquals fuel m evs failed expected actual text file line =
+  FOk (tt, m, evs ++ events_of "CheckEqualFailure" file line (assertEquals (z2b failed))).
+Proof. exact src_assertEquals_tie. Qed.
+Print Assumptions C03_src_assertEquals_tie.
+
+Theorem C03_src_assertCompare_tie :
+  forall (fuel : nat) (m : memory) (evs : list aev) (comparison : Z)
+  (checkString comparisonString text file : ptr) (line : Z),
+  src_assertCompare fuel m evs comparison checkString comparisonString text file line =
+  FOk (tt, m, evs ++ events_of "ComparisonFailure" file line (assertCompare (z2b comparison))).
+Proof. exact src_assertCompare_tie. Qed.
+Print Assumptions C03_src_assertCompare_tie.
+
+Theorem C03_src_assertPointersEqual_direct :
+  forall (fuel : nat) (m : memory) (evs : list aev) (e a text file : ptr) (line : Z),
+  src_assertPointersEqual fuel m evs e a text file line =
+  FOk (tt, m, evs ++ events_of "EqualsFailure" file line (negb (ptr_eqb e a), 1%N)).
+Proof. exact src_assertPointersEqual_direct. Qed.
+Print Assumptions C03_src_assertPointersEqual_direct.
+
+Theorem C03_src_assertFunctionPointersEqual_direct :
+  forall (fuel : nat) (m : memory) (evs : list aev) (e a text file : ptr) (line : Z),
+  src_assertFunctionPointersEqual fuel m evs e a text file line =
+  FOk (tt, m, evs ++ events_of "EqualsFailure" file line (negb (ptr_eqb e a), 1%N)).
+Proof. exact src_assertFunctionPointersEqual_direct. Qed.
+Print Assumptions C03_src_assertFunctionPointersEqual_direct.
+
+Theorem C03_src_assertPointersEqual_tie :
+  forall (enc : ptr -> Z) (fuel : nat) (m : memory) (evs : list aev) (e a text file : ptr) (line : Z),
+  (enc e = enc a -> e = a) ->
+  src_assertPointersEqual fuel m evs e a text file line =
+  FOk (tt, m, evs ++ events_of "EqualsFailure" file line (assertPointersEqual (enc e) (enc a))).
+Proof. exact src_assertPointersEqual_tie. Qed.
+Print Assumptions C03_src_assertPointersEqual_tie.
+
+Theorem C03_src_assertCstrEqual_tie :
+  forall (fuel : nat) (m : memory) (evs : list aev) (e a text file : ptr) (line : Z),
+  mem_ok m ->
+  cstr_ok m e ->
+  cstr_ok m a ->
+  (e <> Null -> a <> Null -> (Datatypes.length (view m e) < fuel)%nat) ->
+  src_assertCstrEqual fuel m evs e a text file line =
+  FOk (tt, m, evs ++ events_of "StringEqualFailure" file line (assertCstrEqual (carg m e) (carg m a))).
+Proof. exact src_assertCstrEqual_tie. Qed.
+Print Assumptions C03_src_assertCstrEqual_tie.
+
+Theorem C03_src_assertCstrNEqual_tie :
+  forall (fuel : nat) (m : memory) (evs : list aev) (e a : ptr) (n : Z) (text file : ptr) (line : Z),
+  mem_ok m ->
+  cstr_ok m e ->
+  cstr_ok m a ->
+  0 <= n < C13_SrcTie.M64 ->
+  (e <> Null -> a <> Null -> (Datatypes.length (view m e) < fuel)%nat) ->
+  src_assertCstrNEqual fuel m evs e a n text file line =
+  FOk
+  (tt, m, evs ++ events_of "StringEqualFailure" file line (assertCstrNEqual (carg m e) (carg m a) (Z.to_N n))).
+Proof. exact src_assertCstrNEqual_tie. Qed.
+Print Assumptions C03_src_assertCstrNEqual_tie.
+
+Theorem C03_src_assertCstrNoCaseEqual_tie :
+  forall (fuel : nat) (m : memory) (evs : list aev) (e a text file : ptr) (line : Z),
+  src_assertCstrNoCaseEqual fuel m evs e a text file line =
+  FOk
+  (tt, m, evs ++ events_of "StringEqualNoCaseFailure" file line (assertCstrNoCaseEqual (carg m e) (carg m a))).
+Proof. exact src_assertCstrNoCaseEqual_tie. Qed.
+Print Assumptions C03_src_assertCstrNoCaseEqual_tie.
+
+Theorem C03_src_assertCstrContains_tie :
+  forall (fuel : nat) (m : memory) (evs : list aev) (e a text file : ptr) (line : Z),
+  src_assertCstrContains fuel m evs e a text file line =
+  FOk (tt, m, evs ++ events_of "ContainsFailure" file line (assertCstrContains (carg m e) (carg m a))).
+Proof. exact src_assertCstrContains_tie. Qed.
+Print Assumptions C03_src_assertCstrContains_tie.
+
+Theorem C03_src_assertCstrNoCaseContains_tie :
+  forall (fuel : nat) (m : memory) (evs : list aev) (e a text file : ptr) (line : Z),
+  src_assertCstrNoCaseContains fuel m evs e a text file line =
+  FOk (tt, m, evs ++ events_of "ContainsFailure" file line (assertCstrNoCaseContains (carg m e) (carg m a))).
+Proof. exact src_assertCstrNoCaseContains_tie. Qed.
+Print Assumptions C03_src_assertCstrNoCaseContains_tie.
+
+Theorem C03_src_assertBinaryEqual_tie :
+  forall (fuel : nat) (m : memory) (evs : list aev) (e a : ptr) (n : Z) (text file : ptr) (line : Z),
+  mem_ok m ->
+  0 <= n < C13_SrcTie.M64 ->
+  (n <> 0 ->
+  e <> Null ->
+  a <> Null ->
+  (Z.to_nat n <= Datatypes.length (view m e))%nat /\
+  (Z.to_nat n <= Datatypes.length (view m a))%nat /\ (Datatypes.length (view m e) < fuel)%nat) ->
+  src_assertBinaryEqual fuel m evs e a n text file line =
+  FOk
+  (tt, m, evs ++ events_of "BinaryEqualFailure" file line (assertBinaryEqual (carg m e) (carg m a) (Z.to_N n))).
+Proof. exact src_assertBinaryEqual_tie. Qed.
+Print Assumptions C03_src_assertBinaryEqual_tie.
